@@ -355,6 +355,12 @@ def first_match_known_finding(ctx):
     ctx.floor(2)
 
 
+def _root_name(e):
+    while isinstance(e, (ast.Subscript, ast.Attribute)):
+        e = e.value
+    return e.id if isinstance(e, ast.Name) else None
+
+
 @rule('C13.6')
 def tree_structure(ctx):
     u = ctx.unit('core.TargetRegistry._get_closest_type')
@@ -431,7 +437,31 @@ def tree_structure(ctx):
     tail = [n for n in fu.node.body if isinstance(n, ast.If) and isinstance(n.test, ast.UnaryOp) and isinstance(n.test.op, ast.Not)
             and isinstance(n.test.operand, ast.Name) and n.test.operand.id in flags]
     ctx.ob(len(tail) == 1, fu, 'an unrelated type becomes a new sibling')
-    ctx.floor(10)
+    # placed-exactly-once: after either placement (re-parenting a subclass / descending into a base)
+    # the fallback store that files the type as a fresh sibling is infeasible; without a
+    # placement it is reached.  Decided on flag-sensitive paths (the ``registered`` flag).
+    fcfg = ctx.cfg(fu)
+    tree = fu.params[3]
+    fallback = [n for n in fcfg.nodes if n.kind == 'stmt' and lp and fcfg.node_of(lp[0]) not in n.loop_stack
+                and isinstance(n.ast, ast.Assign) and matches(n.ast, '%s[%s] = OrderedDict()' % (tree, new_type))]
+    placements = [n for n in fcfg.nodes if n.kind == 'stmt' and lp and fcfg.node_of(lp[0]) in n.loop_stack
+                  and isinstance(n.ast, ast.Assign) and isinstance(n.ast.targets[0], ast.Subscript)
+                  and _root_name(n.ast.targets[0]) == tree]
+    ok = len(fallback) == 1 and len(placements) >= 2
+    if ok:
+        nonexc = lambda lab: lab != 'exc'
+        for pl in placements:
+            if isinstance(pl.ast.value, ast.Call) and isinstance(pl.ast.value.func, ast.Attribute) and pl.ast.value.func.attr == 'pop':
+                continue
+            pth = fcfg.find_path(pl, set(fallback), labels=nonexc)
+            okp = pth is None
+            ctx.ob(okp, fu, 'a placed type is not filed again as a fresh sibling: %s' % norm(pl.ast)[:70],
+                   '' if okp else 'the fallback store overwrites the subtree just built: %s' % fmt_witness(fcfg, pth), node=pl.ast)
+        hdr = fcfg.node_of(lp[0])
+        pth = fcfg.find_path(fcfg.entry, set(fallback), avoid=set(placements), labels=nonexc)
+        ctx.ob(pth is not None, fu, 'a type related to no sibling is filed as a new sibling')
+    ctx.ob(ok, fu, 'placement stores and the fallback store found (%d / %d)' % (len(placements), len(fallback)))
+    ctx.floor(12)
 
 
 @rule('C13.7')
